@@ -9,6 +9,8 @@ mod expr;
 pub use expr::Eval;
 
 pub use expand::{expand, expand_eval, IfMissing};
+#[cfg(kaspar030_laze_verif)]
+pub use expand::ExpandError as ExpandErrorV;
 
 #[derive(Debug, Clone, Eq, PartialEq, Serialize, Deserialize, Hash)]
 pub struct Env {
